@@ -235,7 +235,7 @@ func (it *Interp) trace(st *StepInfo) {
 		c := st.Post.Chains[ch]
 		var pool []string
 		for _, e := range c.Pool {
-			pool = append(pool, fmt.Sprintf("%d(%s f%s c%s @%d %s)", e.Id, e.Token.Amount, e.Fee.Amount, e.ValCommission.Amount, e.CreatedAt, e.Token.ExternalTokenId))
+			pool = append(pool, fmt.Sprintf("%d(%s f%s c%s @%d %s h=%.8s rc=%s to=%.10s)", e.Id, e.Token.Amount, e.Fee.Amount, e.ValCommission.Amount, e.CreatedAt, e.Token.ExternalTokenId, e.TxHash, e.RefundChainId, e.ExternalRecipient))
 		}
 		var bs []string
 		for _, b := range c.Batches {
